@@ -406,13 +406,15 @@ def input_for(plan, by_name, k, rt_len):
     return {"globals": gl, "rt_len": rt_len, "k": k}
 
 
-def shrink_case(single, prog, setname, inp_by_name, k, rt_len, cls, max_rounds=3, budget=400):
-    """smallest program (greedy statement deletion) on which the same class of disagreement is still observed"""
+def shrink_case(single, prog, setname, inp_by_name, k, rt_len, cls, max_rounds=3, budget=400, deadline=None):
+    """smallest program (greedy statement deletion, then expression reduction) on which the same class of
+    disagreement is still observed; at most `budget` oracle calls and never past `deadline` (time.time())"""
+    import time
     calls = [0]
 
     def still(p):
         calls[0] += 1
-        if calls[0] > budget:
+        if calls[0] > budget or (deadline is not None and time.time() > deadline):
             return False
         c, _d = single.status(p, setname, inp_by_name, k, rt_len)
         return c == cls
@@ -421,11 +423,148 @@ def shrink_case(single, prog, setname, inp_by_name, k, rt_len, cls, max_rounds=3
     except Exception:
         small = prog
     small = drop_unused(small, still)
+    try:
+        small = shrink_exprs(small, still)
+        small = shrink.shrink(small, still, max_rounds=1)
+        small = drop_unused(small, still)
+    except Exception:
+        pass
     c, d = single.status(small, setname, inp_by_name, k, rt_len)
     if c != cls:
         small = prog
         c, d = single.status(small, setname, inp_by_name, k, rt_len)
     return small, dict(single.last or {}, cls=c, detail=d)
+
+
+def expr_slots(prog):
+    """[(container, key, env, role)] for the expression slots of every statement; env: name -> (type, kind) in scope;
+    role "l" for assignment targets (only their index expressions are reduced)"""
+    out = []
+    genv = {}
+    for g in prog["globals"]:
+        genv[g["n"]] = (g["t"], "ref")
+    for c in prog["consts"]:
+        genv[c["n"]] = (c["t"], "val")
+
+    def block(b, env):
+        env = dict(env)
+        for s in b:
+            k = s["s"]
+            for fld in ("e", "c", "break_if"):
+                if isinstance(s.get(fld), dict) and k not in ("for", "while"):
+                    out.append((s, fld, env, "e"))
+            if isinstance(s.get("l"), dict):
+                out.append((s, "l", env, "l"))
+            if k == "callstmt":
+                for j in range(len(s["args"])):
+                    out.append((s["args"], j, env, "e"))
+            if k in ("for", "while"):
+                env2 = dict(env)
+                if k == "for" and s.get("init"):
+                    env2[s["init"]["n"]] = (s["init"]["t"], "ref")
+                block(s["body"], env2)
+            elif k == "loop":
+                benv = block(s["body"], env)
+                block(s["cont"], benv)
+            elif k == "if":
+                block(s["then"], env)
+                block(s["else"], env)
+            elif k == "switch":
+                for c in s["cases"]:
+                    block(c["body"], env)
+            elif k == "block":
+                block(s["body"], env)
+            if k in ("let", "var"):
+                env[s["n"]] = (s["t"], "ref" if k == "var" else "val")
+        return env
+    for f in prog["funcs"]:
+        env = dict(genv)
+        for q in f["params"]:
+            env[q["n"]] = (q["t"], "val")
+        block(f["body"], env)
+    env = dict(genv)
+    env["gid"] = (["vec", 3, "u32"], "val")
+    block(prog["entry"]["body"], env)
+    return out
+
+
+def zero_expr(t):
+    if t == "bool":
+        return wgslgen.lit("bool", False)
+    if isinstance(t, str):
+        return wgslgen.lit(t, 0)
+    return {"e": "cons", "t": t, "args": []}
+
+
+def shrink_exprs(prog, still, max_rounds=2):
+    """expression-level shrinking: every sub-expression is replaced by the zero value of its type, or by an operand of
+    the same type, when the disagreement survives (types from Typer; pointers and assignment targets are left alone)"""
+    ty = Typer(prog)
+
+    def kids(e):
+        k = e["e"]
+        if k in ("un", "conv", "bitcast", "mem", "swz"):
+            return [(e, "a")]
+        if k == "bin":
+            return [(e, "a"), (e, "b")]
+        if k in ("call", "builtin", "cons"):
+            return [(e["args"], i) for i in range(len(e["args"]))]
+        if k == "idx":
+            return [(e, "a"), (e, "i")]
+        return []
+
+    def is_min(e):
+        return e["e"] == "lit" or (e["e"] == "cons" and not e["args"]) or e["e"] == "var"
+
+    def reduce(cont, key, env, role):
+        e = cont[key]
+        changed = False
+        if role == "l":
+            # assignment target: only the indices inside the path
+            while e["e"] in ("idx", "mem", "swz", "deref"):
+                if e["e"] == "idx" and e["i"]["e"] != "lit":
+                    changed |= reduce(e, "i", env, "e")
+                e = e["a"]
+            return changed
+        try:
+            t = ty.of(e, env)
+        except Exception:
+            return False
+        if t is None or (isinstance(t, list) and (t[0] == "ptr" or wgslgen.unsized(t))):
+            return False
+        if not is_min(e):
+            cands = [zero_expr(t)]
+            for c, ck in kids(e):
+                try:
+                    if ty.of(c[ck], env) == t:
+                        cands.append(c[ck])
+                except Exception:
+                    pass
+            for cand in cands:
+                cont[key] = cand
+                ok = False
+                try:
+                    ok = still(prog)
+                except Exception:
+                    ok = False
+                if ok:
+                    reduce(cont, key, env, role)
+                    return True
+                cont[key] = e
+        if e["e"] in ("arraylen", "addr", "deref"):
+            return False
+        for c, ck in kids(e):
+            changed |= reduce(c, ck, env, "e")
+        return changed
+
+    for _ in range(max_rounds):
+        any_change = False
+        for cont, key, env, role in expr_slots(prog):
+            if isinstance(cont[key], dict):
+                any_change |= reduce(cont, key, env, role)
+        if not any_change:
+            break
+    return prog
 
 
 def drop_unused(prog, still):
